@@ -90,6 +90,7 @@ def run(ctx):
     thorough = ctx.tier == "thorough"
     states = enumerate_cfgs(ctx, "fwd")
     n = 0
+    nexec = [0]
     with warnings.catch_warnings():
         warnings.simplefilter("ignore")
         # 1. configuration table, forward part
@@ -97,6 +98,7 @@ def run(ctx):
             if st["hasUnused"] or st["bckGiven"]:
                 continue            # forward behaviour does not depend on them (covered by C13)
             n += 1
+            nexec[0] += 1
             cnt = Counting()
             key = (st["xlKind"], st["xuKind"], st["xlInf"], st["xuInf"], st["nGiven"])
             ctx.case(key=key, sample={"cfg": {k: st[k] for k in ("xlKind", "xuKind", "xlInf", "xuInf", "nGiven")}, "spec": st["pred"]} if n % 9 == 1 else None)
@@ -223,6 +225,7 @@ def run(ctx):
             tnodes = np.tan(tg * 0.5 * (tu - tl) + 0.5 * (tu + tl))
             if len(calls) != 201 or not np.allclose(np.array(calls[1:]), tnodes, rtol=1e-10, atol=1e-12):
                 ctx.violation("quad/inf/nodes", "nodes for (%s, %s) are not tan of the Gauss nodes on (atan xl, atan xu)" % (lo, hi), {"limits": [lo, hi]})
+    ctx.replayed = nexec[0]
     ctx.notes.update(cases=n)
     ctx.exhaustive = True
     ctx.assumptions += [
